@@ -265,12 +265,15 @@ def gen_encoded(J, rng, quick):
 # =====================================================================================================================
 # E. ansatz conservation (Jordan-Wigner)
 # =====================================================================================================================
-def closed_shell_molecule(nmo, ne, rng):
-    """integer-integral molecule with ne electrons in nmo orbitals (RHF reference, no pyscf)."""
+def synth_molecule(nmo, ne, spin=0, frozen=None, rng=None):
+    """integer-integral molecule with ne electrons (2S = spin) in nmo orbitals, RHF / ROHF occupations, optional frozen
+    orbitals (occupied and / or virtual); no pyscf."""
     import numpy as np
     from tangelo import SecondQuantizedMolecule
     from tangelo.toolboxes.molecular_computation.integral_solver import IntegralSolver
-    c0, h, g = rand_integrals(rng, nmo)
+    c0, h, g = rand_integrals(rng or random.Random(7), nmo)
+    nd = (ne - spin) // 2
+    occ = [2.] * nd + [1.] * spin + [0.] * (nmo - nd - spin)
 
     class Solver(IntegralSolver):
         def set_physical_data(self, mol):
@@ -281,7 +284,7 @@ def closed_shell_molecule(nmo, ne, rng):
         def compute_mean_field(self, sqmol):
             sqmol.mf_energy = 0.
             sqmol.mo_energies = None
-            sqmol.mo_occ = np.array([2.] * (ne // 2) + [0.] * (nmo - ne // 2))
+            sqmol.mo_occ = np.array(occ)
             sqmol.n_mos = nmo
             sqmol.n_sos = 2 * nmo
             sqmol.mo_symm_ids = None
@@ -290,7 +293,12 @@ def closed_shell_molecule(nmo, ne, rng):
 
         def get_integrals(self, sqmol, mo_coeff=None):
             return float(c0), np.array(h, dtype=float), np.array(g, dtype=float)
-    return SecondQuantizedMolecule([("H", (0., 0., float(i))) for i in range(ne)], 0, 0, solver=Solver(), frozen_orbitals=None)
+    return SecondQuantizedMolecule([("H", (0., 0., float(i))) for i in range(ne)], 0, spin, solver=Solver(), frozen_orbitals=frozen)
+
+
+def closed_shell_molecule(nmo, ne, rng):
+    """integer-integral molecule with ne electrons in nmo orbitals (RHF reference, nothing frozen)."""
+    return synth_molecule(nmo, ne, 0, None, rng)
 
 
 def sym_images(nso, utd, ne, sz2, enc="JW"):
@@ -586,7 +594,7 @@ def tlc_histories(chk, np_, layer, maxlen, num):
     """behaviours of spec/C12History.tla for np_ parameters in layers of `layer` (tlc -simulate, seeded)."""
     key = (np_, layer, maxlen, num)
     if key not in _hist_cache:
-        cfg = ("CONSTANTS NP = %d\nLayer = %d\nMaxLen = %d\nINIT Init\nNEXT Next\nINVARIANT TypeOK\nINVARIANT StartsWithZero\n"
+        cfg = ("CONSTANTS Mode = \"zeros\"\nNP = %d\nLayer = %d\nMaxLen = %d\nINIT Init\nNEXT Next\nINVARIANT TypeOK\nINVARIANT StartsWithZero\n"
                "INVARIANT EndOfBehaviour\n" % (np_, layer, maxlen))
         r = tlc.run("C12History", cfg, "c12/hist_np%d_%d" % (np_, layer), workers=1, simulate="num=%d" % num, depth=maxlen, seed=chk.seed + 17)
         if not r.ok:
@@ -620,14 +628,16 @@ def pick_histories(hs, rng, n):
     return out
 
 
-def history_job(J, inst, h, S_by_engine):
-    """replay one history on a fresh ansatz object and record its final circuit."""
+def history_job(J, inst, h, S_by_engine, common=False, extra=None):
+    """replay one history on a fresh ansatz object and record its final circuit.  common=True: every parameter uses ONE
+    amplitude unit (the largest per-parameter unit, which all others must divide): levels +l / -l are exactly opposite."""
     import contextlib
     import io
     import numpy as np
     chk = J.chk
     name, nmo, ne, utd, k, engine = inst
-    how = {"class": "history", "ansatz": name, "nmo": nmo, "ne": ne, "utd": utd, "k": k, "engine": engine, "hist": h}
+    how = {"class": "history", "ansatz": name, "nmo": nmo, "ne": ne, "utd": utd, "k": k, "engine": engine, "hist": h, "common": common}
+    how.update(extra or {})
     try:
         ans = make_instance(name, nmo, ne, utd, k)
         if inst not in _units_cache:
@@ -636,6 +646,12 @@ def history_job(J, inst, h, S_by_engine):
         if any(u is None for u in units):
             chk.inconclusive += 1
             return
+        if common:
+            big = max(units)
+            if any(abs(big / u - round(big / u)) > 1e-9 for u in units):
+                chk.inconclusive += 1
+                return
+            units = [big] * len(units)
         with contextlib.redirect_stdout(io.StringIO()):
             for step, v in enumerate(h):
                 theta = [u * m for u, m in zip(units, v)]
@@ -681,13 +697,136 @@ def history_instances(quick):
            # Clifford points it often does not - measured with the UpCCGSD layer-offset mutant)
            ("UpCCGSD", 3, 2, False, 2, "ring", 2 if q else 8), ("UCCSD", 3, 2, False, 1, "ring", 1 if q else 4),
            ("UCCSD", 3, 2, False, 1, "cliff", 0 if q else 6), ("UpCCGSD", 3, 2, False, 2, "cliff", 0 if q else 8),
-           ("UCCSD", 4, 4, False, 1, "cliff", 2 if q else 10), ("UpCCGSD", 4, 4, False, 2, "cliff", 4 if q else 14),
+           ("UCCSD", 4, 4, False, 1, "cliff", 1 if q else 10), ("UpCCGSD", 4, 4, False, 2, "cliff", 2 if q else 14),
            ("pUCCD", 4, 4, False, 1, "cliff", 1 if q else 6)]
     if not q:
         out += [("UCCSD", 4, 4, True, 1, "cliff", 6), ("UpCCGSD", 4, 4, True, 2, "cliff", 8), ("UpCCGSD", 4, 4, False, 1, "cliff", 6),
                 ("UpCCGSD", 4, 4, False, 3, "cliff", 8), ("UpCCGSD", 3, 2, True, 3, "cliff", 8), ("UCCSD", 3, 4, True, 1, "cliff", 6),
                 ("UCCGD", 3, 2, False, 1, "cliff", 2)]
     return out
+
+
+# =====================================================================================================================
+# G. molecules with FROZEN orbitals and open shells: the reference numbers are those of the ACTIVE space
+# =====================================================================================================================
+def frozen_molecules(quick):
+    """(nmo, ne, spin, frozen): frozen occupied / frozen virtual / both; closed and open shell; active spaces of 2-3 orbitals"""
+    out = [(3, 4, 0, [0]), (3, 2, 0, [2]), (4, 4, 0, [0, 3]), (4, 4, 0, [0]),        # closed shell: occupied, virtual, both, 3 active
+           (3, 3, 1, [0]), (3, 3, 1, None)]                                          # open shell (doublet): frozen occupied, none
+    if not quick:
+        out += [(4, 6, 0, [0, 1]), (4, 2, 0, [2, 3]), (4, 5, 1, [0]), (4, 4, 2, [3]), (4, 6, 2, [0]), (3, 2, 2, None)]
+    return out
+
+
+def ansatz_on(name, mol, utd):
+    from tangelo.toolboxes.ansatz_generator.uccsd import UCCSD
+    from tangelo.toolboxes.ansatz_generator.upccgsd import UpCCGSD
+    from tangelo.toolboxes.ansatz_generator.uccgd import UCCGD
+    from tangelo.toolboxes.ansatz_generator.puccd import pUCCD
+    if name == "UCCSD":
+        return UCCSD(mol, mapping="JW", up_then_down=utd)
+    if name == "UpCCGSD":
+        return UpCCGSD(mol, mapping="JW", up_then_down=utd, k=1)
+    if name == "UCCGD":
+        return UCCGD(mol, mapping="JW", up_then_down=utd)
+    if name == "pUCCD":
+        return pUCCD(mol)
+    raise ValueError(name)
+
+
+def frozen_job(J, rng, name, molspec, utd, vec=None):
+    """build the ansatz on a molecule with frozen orbitals at a grid vector with all parameters non-zero (ring engine) and
+    record the circuit with the reference numbers of the ACTIVE space: N = n_active_electrons, Sz = active_spin / 2."""
+    import contextlib
+    import io
+    import numpy as np
+    from tangelo.toolboxes.qubit_mappings.mapping_transform import fermion_to_qubit_mapping
+    chk = J.chk
+    nmo, ne, spin, frozen = molspec
+    how = {"class": "frozen", "ansatz": name, "mol": list(molspec), "utd": utd}
+    try:
+        mol = synth_molecule(nmo, ne, spin, frozen)
+        n_act, ne_act, sz2 = mol.n_active_mos, mol.n_active_electrons, mol.active_spin
+        if name == "pUCCD" and spin != 0:
+            return                      # pUCCD is a closed-shell (paired) ansatz
+        if n_act > 3:
+            return
+        with contextlib.redirect_stdout(io.StringIO()):
+            ans = ansatz_on(name, mol, utd)
+            npar = ans.n_var_params
+            units = history_units(name, ansatz_on(name, mol, utd), "ring") if npar else []
+            if any(u is None for u in units):
+                chk.inconclusive += 1
+                return
+            vec = vec or [rng.randrange(1, 8) for _ in range(npar)]
+            ans.build_circuit(np.array([u * m for u, m in zip(units, vec)], dtype=float))
+        gj = gates_to_json(list(ans.circuit), MC)
+        if name == "pUCCD":
+            iN = qubit_op_to_json(fermion_to_qubit_mapping(symmetry_op("N", n_act, False), "HCB"), n_act, MC)
+            S, nq = [{"op": iN, "v": ring(ne_act, MC)}], n_act
+        else:
+            S8, nq = sym_images(2 * n_act, utd, ne_act, sz2)
+            S = [{"op": [dict(t, c=ring_convert(t["c"])) for t in x["op"]], "v": ring_convert(x["v"])} for x in S8]
+    except OffGrid:
+        chk.inconclusive += 1
+        return
+    except Exception as e:
+        chk.violation("exception:frozen:%s" % name, "%s: %s (%s)" % (type(e).__name__, e, how), {"kind": "exception", "how": how})
+        return
+    J.add("circ", dict(how, theta_units=vec, n_active=[n_act, ne_act, sz2]), gates=gj, nq=max(nq, ans.circuit.width), S=S, M=MC)
+
+
+def gen_frozen(J, rng, quick):
+    for molspec in frozen_molecules(quick):
+        for name in ("UCCSD", "UpCCGSD", "UCCGD", "pUCCD"):
+            nmo, ne, spin, frozen = molspec
+            n_act = nmo - len(frozen or [])
+            if quick and n_act == 3 and name != "pUCCD":
+                continue                # 6-qubit circuits (600-1400 gates, ring engine): thorough only
+            for utd in ((False,) if quick else (False, True)):
+                frozen_job(J, rng, name, molspec, utd)
+
+
+def tlc_sign_histories(chk, np_, mode):
+    """exhaustive (breadth-first) sign histories of spec/C12History.tla: mode "flip" or "pair"."""
+    key = (np_, mode)
+    if key not in _hist_cache:
+        cfg = ('CONSTANTS Mode = "%s"\nNP = %d\nLayer = %d\nMaxLen = 2\nINIT SignInit\nNEXT SignNext\nINVARIANT SignTypeOK\n'
+               'INVARIANT EndOfBehaviour\n' % (mode, np_, np_))
+        r = tlc.run("C12History", cfg, "c12/sign_%s_np%d" % (mode, np_), workers=2)
+        if not r.ok:
+            raise tlc.TLCError("C12History (%s) failed: %s\n%s" % (mode, r.violated, r.out[-1200:]))
+        chk.add_tlc(r, "G_sign_%s_np%d" % (mode, np_))
+        _hist_cache[key] = sorted([b["h"] for b in r.prints("BH")])
+    return _hist_cache[key]
+
+
+def gen_sign_histories(J, rng, quick):
+    """UCCGD (the ansatz whose word ORDER depends on the amplitudes): build at a sign-free vector, then update to a vector with
+    exactly opposite amplitudes; the final circuit is judged.  8 qubits: stabiliser engine; 4 / 6 qubits: ring engine."""
+    chk = J.chk
+    plan = [("UCCGD", 4, 4, False, 1, "cliff"), ("UCCGD", 2, 2, False, 1, "ring")] + \
+           ([] if quick else [("UCCGD", 3, 2, False, 1, "ring"), ("UCCGD", 4, 4, True, 1, "cliff")])
+    for inst in plan:
+        name, nmo, ne, utd, k, engine = inst
+        probe = guarded(chk, "ansatz:%s" % name, {"class": "history", "ansatz": name, "nmo": nmo}, lambda: make_instance(name, nmo, ne, utd, k))
+        if probe is None:
+            continue
+        npar = probe.n_var_params
+        Sb = history_symmetries(name, nmo, ne, utd, engine)
+        flips = tlc_sign_histories(chk, npar, "flip")
+        pairs = tlc_sign_histories(chk, npar, "pair")
+        if quick and nmo == 4:
+            # the all-equal level pattern: the flipped parameter is exactly opposite to EVERY other one; each parameter once
+            flips = [h for h in flips if set(h[0]) == {1}]
+            pairs = rng.sample(pairs, 3)
+        elif quick:
+            flips, pairs = rng.sample(flips, min(4, len(flips))), rng.sample(pairs, min(2, len(pairs)))
+        elif utd or nmo == 3:
+            pairs = rng.sample(pairs, min(60, len(pairs)))
+        for sign, hs in (("flip", flips), ("pair", pairs)):
+            for h in hs:
+                history_job(J, inst, h, Sb, common=True, extra={"sign": sign})
 
 
 def gen_histories(J, rng, quick):
@@ -808,6 +947,8 @@ def run(chk):
     gen_ansatz(J, rng, chk.quick)
     gen_circuits(J, rng, chk.quick)
     gen_histories(J, rng, chk.quick)
+    gen_sign_histories(J, rng, chk.quick)
+    gen_frozen(J, rng, chk.quick)
     verdicts, ctl = judge_all(chk, J)
     stats, per_key = {}, {}
     for j in J.jobs:
@@ -842,7 +983,7 @@ def run(chk):
     if bad:
         raise tlc.TLCError("binding failure: corrupted records accepted: %s" % bad)
     chk.part("V", jobs=len(J.jobs), by_class={k: {"n": v[0], "bad": v[1]} for k, v in sorted(stats.items())})
-    for cls in ("operator", "penalty", "commutation", "encoded-penalty", "generator", "history"):
+    for cls in ("operator", "penalty", "commutation", "encoded-penalty", "generator", "history", "frozen"):
         for j in J.jobs:
             if J.meta[j["id"]]["how"].get("class") == cls:
                 chk.sample({"how": J.meta[j["id"]]["how"], "verdict": verdicts[j["id"]],
@@ -867,7 +1008,12 @@ def key_of(how):
         parts.append(how["spec"]["form"] + "-" + "+".join(p[0] for p in how["spec"]["parts"]))
     if "utd" in how:
         parts.append("utd=%s" % how["utd"])
-    if how.get("class") == "history":
+    if how.get("class") == "frozen":
+        nmo, ne, spin, frozen = how["mol"]
+        parts.append("mol=%d.%d.%d:frozen=%s" % (nmo, ne, spin, "-".join(str(x) for x in (frozen or [])) or "none"))
+    if how.get("class") == "history" and how.get("sign"):
+        parts.append("k=%s:nmo=%s:sign-%s" % (how.get("k"), how.get("nmo"), how["sign"]))
+    elif how.get("class") == "history":
         parts.append("k=%s:nmo=%s:%s" % (how.get("k"), how.get("nmo"), "same-pattern" if len(how["hist"]) > 1 and
                      [x == 0 for x in how["hist"][-1]] == [x == 0 for x in how["hist"][-2]] else "changed-pattern"))
     return ":".join(parts)
@@ -899,9 +1045,15 @@ def replay(chk, rec):
         i = how["ints"]
         H = synth_uhf_hamiltonian(i["nmo"], *i["uhf"])
         J.add("comm", how, op=fop_json(symmetry_op(how["op"], i["nmo"], False)), ham=fop_json(H), n=2 * i["nmo"])
+    elif cls == "frozen":
+        frozen_job(J, random.Random(0), how["ansatz"], tuple(how["mol"][:3]) + (how["mol"][3],), how["utd"], vec=how.get("theta_units"))
+        if c2.violations:
+            print("exception reproduced:", c2.violations[0][:2])
+            return False
     elif cls == "history":
         inst = (how["ansatz"], how["nmo"], how["ne"], how["utd"], how["k"], how["engine"])
-        history_job(J, inst, how["hist"], history_symmetries(how["ansatz"], how["nmo"], how["ne"], how["utd"], how["engine"]))
+        history_job(J, inst, how["hist"], history_symmetries(how["ansatz"], how["nmo"], how["ne"], how["utd"], how["engine"]),
+                    common=how.get("common", False), extra={"sign": how["sign"]} if how.get("sign") else None)
         if c2.violations:
             print("exception reproduced:", c2.violations[0][:2])
             return False
